@@ -1,6 +1,7 @@
 import MxModel.Proofs.BackupGen
 import MxModel.Proofs.BackupSeq
 import MxModel.Proofs.BackupSession
+import MxModel.Proofs.BackupPolicy
 import MxModel.Generated.Tables
 /-!
 # C14 – Saving never loses the last good save; failed saves and loads leave no residue
@@ -11,12 +12,18 @@ after a save (`sv`: format, generation, sizes given by the environment) whose `k
 file operation raises – for *every* `k`, so also "no fault" (`k ≥` length of the plan).
 `maxB` is `DEFAULT_MAX_BACKUPS` as it stands in `/repo` now (`Generated/Tables.lean`).
 
+A fault is an index `k` into the save's primitives together with the way the environment fails
+(`sv.pol`): an `OSError` or a `PermissionError`, once or persistently (every further attempt at
+the same operation fails too) – section (6).
+
 Three statements are false of the code as it is and are kept visible as
 `*_partial` + `*_full_statement_fails`:
 * `zipfile.ZipFile.__init__` swallows an `OSError` of its `open` and retries with a truncating
   file mode; `ziputil` re-opens the temporary archive for every member, so such an error makes
   the save move an archive that lacks members into place and report success
-  (`no_partial_archive_partial`, `successful_save_partial`, `zip_full_statement_fails`);
+  (`no_partial_archive_partial`, `successful_save_partial`, `zip_full_statement_fails`); the
+  same happens when `ziputil.copy_file`'s GH82 loop tries again after a `PermissionError` of the
+  archive's *close* (`retry_after_failed_close_full_statement_fails`);
 * a *directory* save is written in place, so a second consecutive failure pushes the last
   complete copy to `_BAK2` (`latest_at_front_partial`, `latest_at_front_full_statement_fails`);
 * a failed load does not undo the parse-time renaming of an existing model of the same name
@@ -49,10 +56,12 @@ theorem copy_moves_at_most_one_slot (fs : FS) (sv : Save) (k i : Nat) (s : Slot)
     (save maxB sv k fs).1 i = s ∨ (save maxB sv k fs).1 (i + 1) = s :=
   save_moves_one maxB sv k fs i s hs hi h
 
-/-- the trigger-free faults: the `OSError` is not at a re-opening of the temporary archive
-(where `zipfile` would swallow it and truncate the archive) -/
+/-- the trigger-free faults: not a transient error at a re-opening of the temporary archive
+(where `zipfile` would swallow it and truncate the archive), not a transient `PermissionError`
+at the close of the archive inside `copy_file`'s retry loop (whose next attempt starts a new
+archive behind the damaged one) -/
 def NotTruncating (fs : FS) (sv : Save) (k : Nat) : Prop :=
-  faultKind (plan maxB sv fs) k ≠ .truncates
+  faultKind sv.pol (plan maxB sv fs) k ≠ .truncates
 
 instance (fs : FS) (sv : Save) (k : Nat) : Decidable (NotTruncating fs sv k) := by
   unfold NotTruncating; exact inferInstance
@@ -186,7 +195,7 @@ theorem latest_at_front_partial (h : List (Save × Nat)) (g0 : Nat) (fs : FS)
 def witnessFs : FS := fun j => if j = 0 then .good .dir 1 else .absent
 /-- … then two directory saves, each failing at its second file operation -/
 def witnessHist : List (Save × Nat) :=
-  [({ kind := .dir, g := 2, n1 := 3 }, 3), ({ kind := .dir, g := 3, n1 := 3 }, 4)]
+  [({ kind := .dir, g := 2, body := plainBody 3 }, 3), ({ kind := .dir, g := 3, body := plainBody 3 }, 4)]
 
 /-- The full statement is false of the code: two consecutive failed *directory* saves leave the
 last complete copy at `_BAK2`, with `path` and `_BAK1` both partial. -/
@@ -270,6 +279,86 @@ theorem failed_load_full_statement_fails :
   revert this
   decide +kernel
 
+/-! ## (6) errors that persist; errors of the class a retry handler absorbs -/
+
+/-- An error that persists is never turned into a truncated archive: `zipfile`'s file-mode
+retry and `copy_file`'s loop run out of attempts and let it escape. -/
+theorem persistent_fault_not_truncating (fs : FS) (sv : Save) (k : Nat)
+    (hp : sv.pol.persist = true) : NotTruncating fs sv k :=
+  faultKind_persist_ne_truncates sv.pol hp _ k
+
+/-- The statement at full strength for errors that persist (either class, any primitive): a
+save that reports success although an operation kept failing has put the complete new
+generation at the path and the previous content of the path at the first backup. -/
+theorem persistent_fault_success_complete (fs : FS) (sv : Save) (k : Nat)
+    (hp : sv.pol.persist = true) (hdone : (save maxB sv k fs).2 = true) :
+    (save maxB sv k fs).1 0 = .good sv.kind sv.g ∧
+      (fs 0 ≠ .absent → (save maxB sv k fs).1 1 = fs 0) :=
+  successful_save_partial fs sv k (persistent_fault_not_truncating fs sv k hp) hdone
+
+/-- … and a zip destination is never left partial by it. -/
+theorem persistent_fault_zip_path_never_partial (fs : FS) (sv : Save) (hz : sv.kind = .zip)
+    (k : Nat) (hp : sv.pol.persist = true) (h : (fs 0).isPart = false) :
+    ((save maxB sv k fs).1 0).isPart = false :=
+  zip_path_never_partial_partial fs sv hz k (persistent_fault_not_truncating fs sv k hp) h
+
+/-- The only operation whose persistent failure a save survives is the `os.rename` inside
+`shutil.move` (which copies instead): a persistent error at any other primitive makes the save
+raise – in particular no retry loop ends by carrying on as if the operation had happened. -/
+theorem persistent_fault_raises (fs : FS) (sv : Save) (k : Nat) (hp : sv.pol.persist = true)
+    (hk : k < (plan maxB sv fs).length) (hm : ∀ g, (plan maxB sv fs)[k]? ≠ some (.move g)) :
+    (save maxB sv k fs).2 = false := by
+  rcases faultKind_persist sv.pol hp (plan maxB sv fs) k with h | ⟨_, g, hg⟩
+  · exact save_raises maxB sv k fs h hk
+  · exact absurd hg (hm g)
+
+/-- A transient `PermissionError` at an operation under a handler for it (`ZipFile.write`
+inside `copy_file`'s GH82 loop, an `unlink`/`rmdir` of `TemporaryDirectory.cleanup`) is
+absorbed without trace: the save is the uninterrupted save. -/
+theorem transient_permission_error_absorbed (fs : FS) (sv : Save) (k : Nat)
+    (hperm : sv.pol.exc = .perm) (honce : sv.pol.persist = false)
+    (hg : (plan maxB sv fs)[k]? = some (.tmp .guarded)) :
+    save maxB sv k fs = save maxB sv (plan maxB sv fs).length fs := by
+  apply save_retried
+  rw [faultKind_guarded _ _ _ hg, if_pos ⟨hperm, honce⟩]
+
+/-- An error of any other class at such an operation (also at the close inside the loop)
+interrupts the save. -/
+theorem guarded_other_error_raises (fs : FS) (sv : Save) (k : Nat) (hos : sv.pol.exc = .os)
+    (hg : (plan maxB sv fs)[k]? = some (.tmp .guarded) ∨
+      (plan maxB sv fs)[k]? = some (.tmp .guardedClose)) :
+    (save maxB sv k fs).2 = false := by
+  have hk : k < (plan maxB sv fs).length := by
+    rcases Nat.lt_or_ge k (plan maxB sv fs).length with h | h
+    · exact h
+    · rw [List.getElem?_eq_none h] at hg; rcases hg with hg | hg <;> cases hg
+  have hne : ¬ (sv.pol.exc = .perm ∧ sv.pol.persist = false) := by
+    intro hc; rw [hos] at hc; cases hc.1
+  apply save_raises maxB sv k fs _ hk
+  rcases hg with hg | hg
+  · rw [faultKind_guarded _ _ _ hg, if_neg hne]
+  · rw [faultKind_guardedClose _ _ _ hg, if_neg hne]
+
+/-- the witness: a zip save of a model with one IO data file over an existing zip save; the
+transient `PermissionError` hits the close of the archive inside `copy_file`'s loop (index 9:
+one rename, then `t c t c t r t r guarded guardedClose`) -/
+def retryWitnessSave : Save :=
+  { kind := .zip, g := 2, n2 := 2, pol := { exc := .perm },
+    pre := [.plain, .create, .plain, .create, .plain, .reopen, .plain, .reopen, .guarded,
+            .guardedClose] }
+
+/-- The full statement is false of the code also when no error is at a (re-)opening of the
+archive: the retry after a failed close makes the save report success with an archive that is
+not a complete copy at the path (the previous copy is intact at `_BAK1`). -/
+theorem retry_after_failed_close_full_statement_fails :
+    ¬ (∀ (fs : FS) (sv : Save) (k : Nat),
+        (plan maxB sv fs)[k]? ≠ some (.tmp .reopen) → (save maxB sv k fs).2 = true →
+        (save maxB sv k fs).1 0 = .good sv.kind sv.g) := by
+  intro H
+  have := H zipWitnessFs retryWitnessSave 10 (by decide) (by decide)
+  revert this
+  decide
+
 /-! ## Non-vacuity: concrete, non-trivial instances -/
 
 /-- four generations present; the fifth save (directory) fails at its last-but-one operation -/
@@ -277,7 +366,7 @@ def demoFs : FS := fun j =>
   if j = 0 then .good .dir 4 else if j = 1 then .good .zip 3 else if j = 2 then .good .dir 2
   else if j = 3 then .good .dir 1 else .absent
 
-def demoSave : Save := { kind := .dir, g := 5, nrm := 4, n1 := 3 }
+def demoSave : Save := { kind := .dir, g := 5, nrm := 4, body := plainBody 3 }
 
 -- the plan: 4 × rm of `_BAK3`, three renames, `make_root`, four writes
 example : (plan maxB demoSave demoFs).length = 12 := by decide
@@ -305,7 +394,7 @@ example : (save maxB demoSave 12 demoFs) = (save maxB demoSave 99 demoFs) ∧
 
 -- six successful saves, formats mixed: the last four generations, in order, nothing at `_BAK4`
 def demoSaves : List Save :=
-  [{ kind := .dir, g := 1 }, { kind := .zip, g := 2, pre := [.create, .plain], n2 := 1 }, { kind := .dir, g := 3, n1 := 2 },
+  [{ kind := .dir, g := 1 }, { kind := .zip, g := 2, pre := [.create, .plain], n2 := 1 }, { kind := .dir, g := 3, body := plainBody 2 },
    { kind := .dir, g := 4 }, { kind := .zip, g := 5 }, { kind := .dir, g := 6, nrm := 3 }]
 
 example : (runOk maxB FS.empty demoSaves) 0 = .good .dir 6 ∧
@@ -349,8 +438,8 @@ example : PathWholeAtEachStart witnessFs [({ kind := .dir, g := 2 }, 0), ({ kind
 -- consequence of the same defect: four failed directory saves in a row push the last complete
 -- copy out of the chain; the fifth rotation deletes it (nothing complete is left anywhere)
 def lostHist : List (Save × Nat) :=
-  [({ kind := .dir, g := 2, n1 := 3 }, 3), ({ kind := .dir, g := 3, n1 := 3 }, 4),
-   ({ kind := .dir, g := 4, n1 := 3 }, 5), ({ kind := .dir, g := 5, nrm := 2, n1 := 3 }, 7)]
+  [({ kind := .dir, g := 2, body := plainBody 3 }, 3), ({ kind := .dir, g := 3, body := plainBody 3 }, 4),
+   ({ kind := .dir, g := 4, body := plainBody 3 }, 5), ({ kind := .dir, g := 5, nrm := 2, body := plainBody 3 }, 7)]
 example : (runHist maxB witnessFs (lostHist.take 3)) 3 = .good .dir 1 ∧
     (runHist maxB witnessFs lostHist 0).isGood = false ∧
     (runHist maxB witnessFs lostHist 1).isGood = false ∧
@@ -364,5 +453,56 @@ example : keys (loadReg [] (newModel [] {} (some "A")).1 "A" .afterRename) = ["A
 -- … fails while the root source is read: nothing changes
 example : keys (loadReg [] (newModel [] {} (some "A")).1 "A" .rootSource) = ["A"] := by
   decide +kernel
+
+-- fault policies on the IO-data witness (`retryWitnessSave`: … `guarded` at 9, `guardedClose` at 10,
+-- the move at 11, two clean-up operations)
+example : (plan maxB retryWitnessSave zipWitnessFs).length = 14 ∧
+    (plan maxB retryWitnessSave zipWitnessFs)[9]? = some (.tmp .guarded) ∧
+    (plan maxB retryWitnessSave zipWitnessFs)[10]? = some (.tmp .guardedClose) := by decide
+-- a transient PermissionError at `ZipFile.write` inside the loop: absorbed, the save is complete
+example : (save maxB retryWitnessSave 9 zipWitnessFs).2 = true ∧
+    (save maxB retryWitnessSave 9 zipWitnessFs).1 0 = .good .zip 2 ∧
+    (save maxB retryWitnessSave 9 zipWitnessFs).1 1 = .good .zip 1 := by
+  rw [transient_permission_error_absorbed zipWitnessFs retryWitnessSave 9 rfl rfl (by decide)]
+  decide
+-- the same error persisting through all attempts: the save raises, the path is absent (never a
+-- partial archive), the previous copy is at `_BAK1`
+def retryPersist : Save := { retryWitnessSave with pol := { exc := .perm, persist := true } }
+example : (save maxB retryPersist 9 zipWitnessFs).2 = false ∧
+    (save maxB retryPersist 9 zipWitnessFs).1 0 = .absent ∧
+    (save maxB retryPersist 9 zipWitnessFs).1 1 = .good .zip 1 := by
+  have h9 : (plan maxB retryPersist zipWitnessFs)[9]? = some (.tmp .guarded) := by decide
+  refine ⟨persistent_fault_raises zipWitnessFs retryPersist 9 rfl (by decide)
+    (by intro g; rw [h9]; intro hc; cases hc), ?_, ?_⟩ <;> decide
+-- … also at the close, and at a re-opening (no truncation when the error persists)
+example : (save maxB retryPersist 10 zipWitnessFs).2 = false ∧
+    (save maxB retryPersist 6 zipWitnessFs).2 = false ∧
+    (save maxB retryPersist 6 zipWitnessFs).1 0 = .absent ∧
+    NotTruncating zipWitnessFs retryPersist 6 ∧ NotTruncating zipWitnessFs retryPersist 10 := by
+  decide
+-- a persistent error of the rename inside `shutil.move` is survived (it copies): complete
+example : (save maxB retryPersist 11 zipWitnessFs).2 = true ∧
+    (save maxB retryPersist 11 zipWitnessFs).1 0 = .good .zip 2 :=
+  ⟨by decide, (persistent_fault_success_complete zipWitnessFs retryPersist 11 rfl (by decide)).1⟩
+-- a plain OSError at the guarded operations is not absorbed
+example : (save maxB { retryWitnessSave with pol := {} } 9 zipWitnessFs).2 = false :=
+  guarded_other_error_raises zipWitnessFs { retryWitnessSave with pol := {} } 9 rfl (Or.inl (by decide))
+-- the retry-after-failed-close witness in full
+example : (save maxB retryWitnessSave 10 zipWitnessFs).2 = true ∧
+    (save maxB retryWitnessSave 10 zipWitnessFs).1 0 = .part .zip 2 ∧
+    (save maxB retryWitnessSave 10 zipWitnessFs).1 1 = .good .zip 1 ∧
+    ¬ NotTruncating zipWitnessFs retryWitnessSave 10 := by decide
+-- a transient PermissionError in the clean-up after the move is absorbed as well
+example : save maxB retryWitnessSave 12 zipWitnessFs = save maxB retryWitnessSave 14 zipWitnessFs :=
+  transient_permission_error_absorbed zipWitnessFs retryWitnessSave 12 rfl rfl (by decide)
+-- directory format with IO data: openpyxl's `ZipFile(path, "w")` of a workbook below the path
+-- (index 4 of the plan) absorbs a transient error, not a persistent one
+def demoDirIO : Save := { kind := .dir, g := 2, body := [none, none, some .create, none, some .plain, none] }
+example : (save maxB demoDirIO 4 zipWitnessFs).2 = true ∧
+    (save maxB demoDirIO 4 zipWitnessFs).1 0 = .good .dir 2 ∧
+    (save maxB { demoDirIO with pol := { persist := true } } 4 zipWitnessFs).2 = false ∧
+    (save maxB { demoDirIO with pol := { persist := true } } 4 zipWitnessFs).1 0 = .part .dir 2 ∧
+    (save maxB { demoDirIO with pol := { persist := true } } 4 zipWitnessFs).1 1 = .good .zip 1 := by
+  decide
 
 end MxModel.C14
